@@ -9,6 +9,7 @@ import FimVerif.Proofs.Lemmas.C08Shared
 import FimVerif.Proofs.Lemmas.C08Prune
 import FimVerif.Proofs.Lemmas.C08Ops
 import FimVerif.Proofs.Lemmas.C08Names
+import FimVerif.Proofs.Lemmas.C08Plan
 /-!
 # C08 — removal and disconnection delete exactly the owned structure and nothing else
 
@@ -606,6 +607,20 @@ theorem remove_byName_child (h : G) (d : Dir) (hl : List IfH) (p x name : Nat) (
    fun hp hx hu => nodeRemoveNs_eq h d p x name hp hx hname hu,
    fun hx hu => removeChildByName_eq h d hl p x name hx hname hu⟩
 
+/-- **`NetworkService.remove_interface(name=)`** (substrate topologies): exactness, the handle, and by-name = by-id -/
+theorem remove_interface_exact_wf (g : G) (hW : WF g = true) (h : List IfH) (s i : Nat) (hs : g.cls? s = some .ns)
+    (hi : i ∈ g.nbrs s .connects .cp) (hh : ∀ y, y ∈ hIds h ↔ y ∈ freshIfs g s) :
+    ∃ D, removeInterface g h i = .ok (g.minus D, hDrop h i) ∧
+      (∀ y, y ∈ D ↔ Below g i y ∨ (g.cls? y = some .link ∧ 2 ≤ (g.nbrs y .connects .cp).length ∧
+        (∃ e ∈ g.nbrs y .connects .cp, Below g i e) ∧
+        ∀ e1 ∈ g.nbrs y .connects .cp, ∀ e2 ∈ g.nbrs y .connects .cp, ¬ Below g i e1 → ¬ Below g i e2 → e1 = e2)) ∧
+      ∀ y, y ∈ hIds (hDrop h i) ↔ y ∈ freshIfs (g.minus D) s := removeInterface_wf g hW h s i hs hi hh
+
+theorem remove_interface_byName (g : G) (d : Dir) (h : List IfH) (s i name : Nat) (hs : g.cls? s = some .ns)
+    (hi : i ∈ g.nbrs s .connects .cp) (hname : d.nameOf i = some name)
+    (huniq : ∀ y ∈ g.nbrs s .connects .cp, d.nameOf y = some name → y = i) :
+    removeInterfaceByName g d h s name = removeInterface g h i := removeInterfaceByName_eq g d h s i name hs hi hname huniq
+
 /-- a name that designates no (non-facility) node — e.g. the name of a service, of a link, or a prefix of a node's name —
 makes `remove_node` raise before anything is touched -/
 theorem remove_node_absent_name (h : G) (d : Dir) (name : Nat)
@@ -615,6 +630,13 @@ theorem remove_node_absent_name (h : G) (d : Dir) (name : Nat)
 /-- **soundness of the collection phase of `prune`** -/
 theorem prune_collect_sound (g : G) (d : Dir) (hid : (g.nodes.map (·.id)).Nodup) : MarkedOK g d (pruneCollect g d) :=
   pruneCollect_ok g d hid
+
+/-- **completeness of the collection phase** for nodes and services: every marked node of `Topology.nodes` and every marked
+service of `Topology.network_services` (met below a component or only in the final pass) is collected.  (For components
+and interfaces the correspondence run compares what the model collects with the marks on every prune case.) -/
+theorem prune_collect_complete (g : G) (d : Dir) (x : Nat) (hm : d.isMarked x = true) :
+    (x ∈ topoNodes g d → x ∈ (pruneCollect g d).nodes) ∧ (x ∈ topoNss g d → x ∈ (pruneCollect g d).nss) :=
+  ⟨fun h => pruneCollect_nodes_complete g d x h hm, fun h => pruneCollect_nss_complete g d x h hm⟩
 
 /-- **`ExperimentTopology.prune(state)` through its public entry point** — collection phase, by-name pruning of nodes
 and components, guarded loops — on a well-formed topology with unique names deletes exactly the owned structure of what
@@ -633,5 +655,41 @@ example : NamesOK exPrune exDir = true ∧ (findByName exPrune exDir .node 0).to
     (findByName exPrune exDir .ns 0).toOption = some 7 ∧ (findByName exPrune exDir .link 0).toOption = none ∧
     ((pruneCollect exPrune exDir).nodes, (pruneCollect exPrune exDir).comps) = ([1, 6], [(2, 1)]) ∧
     (pruneApi exPrune exDir).toOption.map (fun g => g.nodes.map (·.id)) = some [] := by decide
+
+
+/-! ## The generated plans (wave 3)
+
+`Generated/RemovalPlan.lean` is rewritten from /repo's AST on every run: per removal function the tracked helper calls
+in evaluation order, the shape of the argument of `_disconnect_interfaces`, the two length tests of
+`remove_cp_and_links`, the loops of `prune`.  The driver runs the interpretations of these plans
+(`Model/RemovePlan.lean`); the theorems above are about the hand-written functions.  `plan_bridge` identifies the two for
+the plans as they are; it is re-checked against the regenerated table on every run. -/
+
+/-- **the interpreted plans are the modelled calls** -/
+theorem plan_bridge :
+    (∀ g x dp, removeCpP g x dp = removeCp g x (dp.getD true)) ∧ removeNsP = Remove.removeNs ∧ removeCompP = removeComp ∧
+    removeNodeGP = removeNodeG ∧ removeLinkGP = removeLinkG ∧
+    (∀ g n, removeNodeApiP g n = removeNodeApi g n) ∧ (∀ g n, removeFacilityApiP g n = removeFacilityApi g n) ∧
+    (∀ g n, removeSwitchApiP g n = removeSwitchApi g n) ∧ (∀ g c, removeComponentApiP g c = removeComponentApi g c) ∧
+    (∀ g s, removeNsApiP g s = removeNsApi g s) ∧ (∀ g l, removeLinkApiP g l = removeLinkApi g l) ∧
+    (∀ g h p c, removeChildP g h p c = Remove.removeChild g h p c) ∧
+    (∀ g h i, removeInterfaceP g h i = removeInterface g h i) ∧
+    (∀ g ns cs ss is, pruneP g ns cs ss is = Remove.prune g ns cs ss is) :=
+  ⟨removeCpP_eq, removeNsP_fun, removeCompP_fun, removeNodeGP_fun, removeLinkGP_fun, removeNodeApiP_eq, removeFacilityApiP_eq,
+   removeSwitchApiP_eq, removeComponentApiP_eq, removeNsApiP_eq, removeLinkApiP_eq, removeChildP_eq, removeInterfaceP_eq, pruneP_eq⟩
+
+open FimVerif.Gen.RemovalPlan in
+/-- **table facts** for the calls that are not interpreted step by step: `disconnect_interface` looks for the peers and
+makes one `remove_cp_and_links` call with the default `delete_parent`; `unpeer` makes two; `remove_interface` one;
+`remove_storage` is `remove_component`; `_disconnect_interfaces` tests presence, asks for the ServicePort peers, takes the
+parent element of the single peer and calls its `disconnect_interface`, all inside the loop, and insists on exactly one
+peer; `Topology.remove_network_service` and `Node.remove_network_service` have the same plan -/
+theorem plan_facts :
+    disconnectInterface = [⟨.getPeers, false⟩, ⟨.gcp none, false⟩] ∧
+    Gen.RemovalPlan.unpeer = [⟨.getPeers, true⟩, ⟨.gcp none, false⟩, ⟨.gcp none, false⟩] ∧
+    Gen.RemovalPlan.removeInterface = [⟨.gcp none, false⟩] ∧ nodeRemoveStorage = [⟨.callRemoveComponent, false⟩] ∧
+    disconnectInterfaces = [⟨.nodeExists, true⟩, ⟨.getPeers, true⟩, ⟨.getParent, true⟩, ⟨.dconn, true⟩] ∧
+    discPeerCount = 1 ∧ removeNetworkService = nodeRemoveNetworkService ∧ cpDeleteParentDefault = true ∧
+    pruneLoops = [(.pruneNode, false), (.pruneComp, true), (.pruneNs, true), (.pruneIface, true)] := by decide
 
 end FimVerif.C08
